@@ -219,3 +219,71 @@ def check_C12(ctx, replay=None):
                    "partition is outside the property's quantifier)",
                    "expiry and catch-up are alternatives of one actor configuration (which timer is shorter); behaviours "
                    "containing both are not replayed"])
+
+
+def _replication(ctx, pid):
+    quick = ctx.quick()
+    key = pid.lower()
+    ex = run_tlc(ctx, "MCReplication", "MCReplicationQ.cfg" if quick else "MCReplication.cfg", workers=10, timeout=5400,
+                 xmx="24g", tags=())
+    # (message deliveries are one disjunct of Next in TLC's coverage report)
+    core.require_actions(ex, ["ClientWrite", "Next", "GiveUp", "CatchUp", "Crash", "Restart", "ViewChange"], "replication")
+    _tlc_must_hold(ctx, ex, "%s:tlc-invariant" % key)
+    if not quick:
+        dv = run_tlc(ctx, "MCReplication", "MCReplicationDev.cfg", workers=4, timeout=900, tags=(), expect_error=True)
+        if dv.ok:
+            raise core.ToolError("specification self-test failed: MCReplicationDev.cfg (quorum one reply too small) should "
+                                 "violate OneConfirmedPerSeq")
+    sim = run_tlc(ctx, "MCReplication", "MCReplicationSim.cfg", workers=1, simulate=120 if quick else 1500, depth=60,
+                  timeout=1800, coverage=False)
+    _tlc_must_hold(ctx, sim, "%s:tlc-invariant" % key)
+    # one (the longest) behaviour per walk prefix family: de-duplicate identical prints
+    seen, uniq = set(), []
+    for t, v in sim.prints:
+        k = json.dumps(v["steps"])
+        if k not in seen:
+            seen.add(k)
+            uniq.append((t, v))
+    sim.prints = uniq[: (80 if quick else 1200)]
+    plans, n = _plans(ctx, [sim], "replication-plans.ndjson")
+    binary = cargo_build(ctx, "h-cluster")
+    hr = run_harness(ctx, binary, ["vcluster", plans], timeout=9000)
+    for v in hr.violations:
+        k = v["key"]
+        # the two properties share the machinery; each reports what belongs to it (conformance failures to both)
+        if pid == "C11" and k.startswith("c10:two-confirmed"):
+            continue
+        if pid == "C10" and k.startswith("c11:"):
+            continue
+        add_violation(ctx, k.replace("c10:conformance", "%s:conformance" % key).replace("c10:panic", "%s:panic" % key), v["detail"], v["replay"])
+    cov = {
+        "states": ex.distinct, "transitions": ex.generated + sim.generated,
+        "traces_validated_against_impl": hr.stats["evaluations"], "samples": hr.stats.get("samples", []),
+        "evaluations": hr.stats["evaluations"], "distinct_nontrivial": hr.stats["distinct_classes"],
+        "steps_replayed": hr.stats.get("steps_replayed"), "skipped_with_catchup": hr.stats.get("skipped_with_catchup"),
+        "rule": "Replication.tla models 3 nodes (logs, on-disk counts, replicator next/buffer, membership views), the coordinator of "
+                "transaction.rs (local append, ReplicateWrite fan-out to its view, reply counting, set_confirmations at the quorum, "
+                "ConfirmTransaction to the replicas that answered, late replies), the replica (sender check, replicator, "
+                "ConfirmTransaction checks), catch-up below the coordinator's watermark, message loss / duplication / reordering, "
+                "divergent views (two simultaneous coordinators), give-up, crash and restart; TLC checks OneConfirmedPerSeq, "
+                "ConfirmedPrefixAgree, AckedOnQuorum, QuorumCountMeansQuorumHeld, AckedStable exhaustively (quick: 2 transactions, 1 "
+                "view change, 1 crash; thorough: + loss and duplication). Random walks with 3 transactions are replayed on a "
+                "virtual cluster of real Database directories and real PartitionReplicatorActors: local appends, ReplicateWrite "
+                "asks, set_confirmations_with_retry, the real ConfirmTransaction handler (ClusterActor switched to the replica's "
+                "database), close/reopen for crash/restart; every reply and finally every node's log and on-disk counts must be the "
+                "specification's, and the two properties are evaluated on the real final state.",
+    }
+    return finish(ctx, "model_checking", cov,
+                  ["one ClusterActor per process: the coordinator's fan-out, reply counting and late-reply logic are decided on "
+                   "the specification and mirrored by the harness for rf = 3, not observed; the sender check of the ReplicateWrite "
+                   "handler is mirrored from the view",
+                   "a replica's Ok reply implies its append is durable (C01)",
+                   "behaviours with catch-up are model-checked but not replayed here (C12 replays the real catch-up)"])
+
+
+def check_C10(ctx, replay=None):
+    return _replication(ctx, "C10")
+
+
+def check_C11(ctx, replay=None):
+    return _replication(ctx, "C11")
